@@ -206,8 +206,8 @@ PROPS = {
     },
     "C05": {
         "nt_rule": "ok_after_learning",
-        "level": "proof", "module": "Resolvo.Props.C05", "imports": ["Resolvo.MDet.CheckedProofs"],
-        "theorems": ["Resolvo.MDet.solveChecked_ok_supported", "Resolvo.C05.supportedB_sound", "Resolvo.C05.closure_sound"],
+        "level": "proof", "module": "Resolvo.Props.C05", "imports": ["Resolvo.MDet.CheckedProofs", "Resolvo.MDet.Undo"],
+        "theorems": ["Resolvo.C05.undo_until_drops_above_level", "Resolvo.MDet.undoUntil_post", "Resolvo.MDet.undoUntil_loop_post", "Resolvo.MDet.runM_undoLast_ok", "Resolvo.MDet.solveChecked_ok_supported", "Resolvo.C05.supportedB_sound", "Resolvo.C05.closure_sound"],
         "families": [("solve", SOLVE_Q), ("soft", SOFT_Q), ("conflictfree", CF_Q), ("hints", HINTS_Q), ("reuse", {"quick": 8000, "thorough": 100000})],
         "explanation": "PROVED (all inputs): every solvable in a solution returned by the checked model is Supported (solveChecked_ok_supported). TIE: exact correspondence of MDet.solve with the real solver (result, solution order, history) + supportedB on every implementation answer. NOT PROVED: that checkFailed never occurs (checked per run); completeness of the closure oracle.",
     },
